@@ -46,6 +46,27 @@ func Point(site string) {
 		(*h)(site)
 	}
 }
+
+var hookM atomic.Pointer[func(site string, mu any)]
+
+// SetHookM: like SetHook, for the points at mutex operations, which also hand
+// over a pointer to the expression the method was called on.
+func SetHookM(f func(site string, mu any)) {
+	if f == nil {
+		hookM.Store(nil)
+		return
+	}
+	hookM.Store(&f)
+}
+
+// PointM is a scheduling point at a mutex operation.
+func PointM(site string, mu any) {
+	if h := hookM.Load(); h != nil {
+		(*h)(site, mu)
+		return
+	}
+	Point(site)
+}
 `
 
 func main() {
@@ -185,6 +206,38 @@ func instrument(rel string, data []byte) ([]byte, int, error) {
 	point := func(site, kind string) string {
 		return fmt.Sprintf("simyield.Point(%q)", site+":"+kind)
 	}
+	pkgs := map[string]bool{}
+	for _, im := range f.Imports {
+		name := strings.Trim(im.Path.Value, `"`)
+		if i := strings.LastIndex(name, "/"); i >= 0 {
+			name = name[i+1:]
+		}
+		if im.Name != nil {
+			name = im.Name.Name
+		}
+		pkgs[name] = true
+	}
+	// simple: an identifier or a chain of field selections over one (its
+	// address can be taken); not a package-qualified name
+	var simple func(e ast.Expr, top bool) bool
+	simple = func(e ast.Expr, top bool) bool {
+		switch x := e.(type) {
+		case *ast.Ident:
+			return !pkgs[x.Name] && x.Name != "_"
+		case *ast.SelectorExpr:
+			return simple(x.X, false)
+		}
+		return false
+	}
+	// pointM: a point at a mutex operation; hands over the address of the
+	// expression the method is called on when that is a simple one
+	pointM := func(site, kind string, recv ast.Expr) string {
+		if !simple(recv, true) {
+			return point(site, kind)
+		}
+		text := string(data[fset.Position(recv.Pos()).Offset:fset.Position(recv.End()).Offset])
+		return fmt.Sprintf("simyield.PointM(%q, &%s)", site+":"+kind, text)
+	}
 	visit := func(stmts []ast.Stmt) {
 		for _, s := range stmts {
 			pos := fset.Position(s.Pos())
@@ -195,12 +248,19 @@ func instrument(rel string, data []byte) ([]byte, int, error) {
 					if sel, ok := call.Fun.(*ast.SelectorExpr); ok {
 						end := fset.Position(es.End()).Offset
 						switch sel.Sel.Name {
-						case "Lock", "RLock":
-							list = append(list, ins{pos.Offset, point(site, "before-lock") + "; "})
-							list = append(list, ins{end, "; " + point(site, "after-lock")})
+						case "Lock":
+							list = append(list, ins{pos.Offset, pointM(site, "before-lock", sel.X) + "; "})
+							list = append(list, ins{end, "; " + pointM(site, "after-lock", sel.X)})
 							continue
-						case "Unlock", "RUnlock":
-							list = append(list, ins{end, "; " + point(site, "after-unlock")})
+						case "RLock":
+							list = append(list, ins{pos.Offset, pointM(site, "before-rlock", sel.X) + "; "})
+							list = append(list, ins{end, "; " + pointM(site, "after-rlock", sel.X)})
+							continue
+						case "Unlock":
+							list = append(list, ins{end, "; " + pointM(site, "after-unlock", sel.X)})
+							continue
+						case "RUnlock":
+							list = append(list, ins{end, "; " + pointM(site, "after-runlock", sel.X)})
 							continue
 						}
 					}
@@ -210,7 +270,11 @@ func instrument(rel string, data []byte) ([]byte, int, error) {
 			// just before it runs just after the unlock
 			if ds, ok := s.(*ast.DeferStmt); ok {
 				if sel, ok := ds.Call.Fun.(*ast.SelectorExpr); ok && len(ds.Call.Args) == 0 && (sel.Sel.Name == "Unlock" || sel.Sel.Name == "RUnlock") {
-					list = append(list, ins{pos.Offset, "defer " + point(site, "after-unlock") + "; "})
+					kind := "after-unlock"
+					if sel.Sel.Name == "RUnlock" {
+						kind = "after-runlock"
+					}
+					list = append(list, ins{pos.Offset, "defer " + pointM(site, kind, sel.X) + "; "})
 				}
 				continue
 			}
